@@ -183,6 +183,8 @@ def run_l4(scn):
     sim.add_agent("sys8x", mon)
     sim.run(ncyc, "sys")
     got = l4_decode(slots)
+    for g_ in got:
+        sim.ev("pad", g_[0], g_[1], tuple(sorted(g_[2].items())))
     # expected under the literal rule (blocked by an *emitted* command that started < 4 slots earlier) and under the
     # presented-based rule of the basic overlap check
     pres = []
@@ -372,6 +374,8 @@ def run_l5(scn):
     sim.add_agent("sys", drv)
     sim.run(ncyc, "sys")
     got = l5_decode(cycles)
+    for g_ in got:
+        sim.ev("out", g_[0], g_[1], tuple(sorted((k_, str(v_)) for k_, v_ in g_[2].items())))
     pres = []
     for c in sorted(cmds, key=lambda c: c["cyc"]):
         if c.get("cs_n", 0):
